@@ -954,7 +954,7 @@ def main():
         bound={"elements": "one TRI3 (2-D), one TETRA4 (3-D)", "displacement_box": "+-1/8 per component (J > 0)", "laws": LAWS, "operators": ["SecondPiolaKirchhoffStressTensor", "ActiveStressTensor", "KelvinVoigtDamping", "TimeQuadratureStressTensor (fixed rule, nPoints 1-6 quick / 1-9 thorough)"],
                "rotations": "2-D symbolic angle; 3-D 3-4-5 about z and 5-12-13 about (2,3,6)/7"},
         symbolic=["nodal displacement components (4 in 2-D with node 0 fixed / 6 for operators; 9 / 12 in 3-D)", "nodal velocities (Kelvin-Voigt)", "material constants (reference configuration)", "rotation (c, s) in 2-D"],
-        assumptions=["Holzapfel-Ogden end to end through the displacement (it is checked in invariant form only: exponentials as opaque functions with their derivative rule), user energies through jax AutoDiff (FFI), the Gonzalez discrete-gradient operator and the adaptive path quadrature, penalty contact (KD-tree), follower pressure and multi-step energy conservation (Newton iterations "
+        assumptions=["Holzapfel-Ogden end to end through the displacement (it is checked in invariant form only: exponentials as opaque functions with their derivative rule), user energies through jax AutoDiff (FFI), the Gonzalez discrete-gradient operator and the adaptive path quadrature, penalty contact (KD-tree) and multi-step energy conservation (Newton iterations "
                      "to a float tolerance) are outside", "one element, first-order shape functions: the deformation gradient is general but uniform"],
         source_files=["EasyFEA/Models/HyperElastic/_laws.py", "EasyFEA/Models/HyperElastic/_state.py", "EasyFEA/FEM/Operators/NonLinear.py", "EasyFEA/Models/_utils.py"],
         rule="one job per (law, dimension) and per (operator, law, dimension); non-trivial = symbolic displacement with exact symbolic differentiation",
